@@ -491,6 +491,35 @@ def rule_f(ctx):
   ctx.ob('C08.f', fi.fq + '#born-sealed', not problems,
          'an object constructed sealed has its attribute container (hence all '
          'descendants) sealed', fi.loc, '; '.join(problems))
+  # construction of containers: List(..., sealed=True) / Dict(..., sealed=True)
+  # deep-seal through the final self.seal(sealed); because seal() returns early
+  # when the own flag already equals the argument, the base constructor must
+  # not set the flag first.
+  for cls_fq in (S.LIST, S.DICT):
+    fi = idx.lookup_method(cls_fq, '__init__')
+    fs = idx.lookup_method(cls_fq, 'seal')
+    gi = C.cfg_of(fi.node)
+    problems = []
+    seal_calls = [k for k in gi.nodes if k.ast is not None and any(A.call_name(c) == 'self.seal' for c in k.calls())]
+    if not seal_calls:
+      problems.append('the constructor no longer calls self.seal(sealed)')
+    else:
+      if gi.can_skip(gi.entry, lambda n: n in seal_calls):
+        problems.append('a normal path through the constructor skips self.seal(sealed)')
+      c = [c for c in seal_calls[0].calls() if A.call_name(c) == 'self.seal'][0]
+      flag = c.args[0] if c.args else A.kwarg(c, 'sealed')
+      if not isinstance(flag, ast.Name):
+        problems.append('self.seal is not called with the constructor\'s sealed argument')
+    has_early = any(n.kind == 'test' and 'is_sealed' in A.unparse(n.ast) for n in C.cfg_of(fs.node).nodes)
+    sup_init = [c for c in A.calls_in(fi.node) if (A.call_name(c) or '') in ('super().__init__', 'base.Symbolic.__init__')]
+    for c in sup_init:
+      sk = A.kwarg(c, 'sealed')
+      if has_early and sk is not None and not (isinstance(sk, ast.Constant) and sk.value is False):
+        problems.append(f'the base constructor already sets the flag (sealed={A.unparse(sk)}): the final '
+                        f'self.seal(sealed) returns early and no child is sealed')
+    ctx.ob('C08.f', fi.fq + '#born-sealed', not problems,
+           'a container constructed sealed seals all its descendants (the deep seal at the end of the '
+           'constructor is not short-circuited)', fi.loc, '; '.join(problems))
   # Symbolic.sym_seal stores the flag
   f = idx.func(S.SYMBOLIC + '.sym_seal')
   ok = any(A.call_name(c) == 'self._set_raw_attr' and c.args
